@@ -173,7 +173,9 @@ class Node:
         os.makedirs(self.dir)
         net.acting = self
         os.chdir(self.dir)
-        self.store = blockstore.BlockStore(os.path.join(self.dir, 'chain.db')) if real_store else None
+        import contextlib, io
+        with contextlib.redirect_stdout(io.StringIO()):
+            self.store = blockstore.BlockStore(os.path.join(self.dir, 'chain.db')) if real_store else None
         blockstore.DefaultBlockStore.instance = self.store
         self.lp = LocalPeer(disk_interface=DiskInterface())
         self.lp.selector = FakeSelector()
